@@ -172,3 +172,25 @@ package tcp
 //@   loop 1 invariant 0 <= n && n <= i && i <= sack.NumBlocks && sack.NumBlocks == old(sack.NumBlocks)
 //@   loop 1 invariant forall(k, 0, n, sbefore(rcvNxt, sack.Blocks[k].End) && (sack.Blocks[k].Start == rcvNxt || sbefore(rcvNxt, sack.Blocks[k].Start)))
 //@   modifies sack.Blocks, sack.NumBlocks
+
+// sackAfter(b, nxt): block b starts after nxt; sackValid(b): b ends after its start; both in
+// serial-number order (or exactly half the space away, where LessThan answers true both ways).
+//@ define sackAfter(b, nxt) = safter(b.Start, nxt)
+//@ define sackValid(b) = safter(b.End, b.Start)
+
+// The SACK list stays within its array; a first block is stored as given; afterwards every
+// stored block starts after rcvNxt (serial order) and every block other than a newly
+// inserted first one is non-empty in serial order.
+//@ func UpdateSACKBlocks props C14 C02
+//@   requires sack != nil && 0 <= sack.NumBlocks && sack.NumBlocks <= MaxSACKBlocks
+//@   ensures 0 <= sack.NumBlocks && sack.NumBlocks <= MaxSACKBlocks
+//@   ensures implies(old(sack.NumBlocks) == 0, sack.NumBlocks == 1 && sack.Blocks[0].Start == segStart && sack.Blocks[0].End == segEnd)
+//@   ensures implies(old(sack.NumBlocks) != 0, forall(k, 0, sack.NumBlocks, sackAfter(sack.Blocks[k], rcvNxt)))
+//@   ensures implies(old(sack.NumBlocks) != 0, forall(k, 1, sack.NumBlocks, sackValid(sack.Blocks[k])))
+//@   loop 1 invariant 0 <= n && n <= i && i <= sack.NumBlocks && sack.NumBlocks == old(sack.NumBlocks)
+//@   loop 1 invariant forall(k, 0, n, sackAfter(sack.Blocks[k], rcvNxt) && sackValid(sack.Blocks[k]))
+//@   loop 2 invariant -1 <= i && i <= n - 1 && 0 <= n && n <= MaxSACKBlocks - 1
+//@   loop 2 invariant forall(k, 0, i + 1, sackAfter(sack.Blocks[k], rcvNxt) && sackValid(sack.Blocks[k]))
+//@   loop 2 invariant forall(k, i + 2, n + 1, sackAfter(sack.Blocks[k], rcvNxt) && sackValid(sack.Blocks[k]))
+//@   loop 2 invariant sbefore(rcvNxt, newSB.Start) || newSB.Start - rcvNxt == 0x80000000
+//@   modifies sack.Blocks, sack.NumBlocks
